@@ -303,6 +303,43 @@ def process_fn(toks, it, fs: FnSpec, qual, ed: Edits, log, unit_in_trait_impl):
                 ed.insert(toks[c.body_last].end, " }", prio=-9)
             log["rewrites"].append({"rule": "RC", "fn": qual, "before": old, "after": head,
                                     "note": "closure parameter types / named result / contract added; body kept verbatim"})
+    # R15 (automatic, before R10): matches!(E, C1 | C2 | ..) whose alternatives are all listed constants
+    #      ->  { let __vxm = E; __vxm == C1 || __vxm == C2 || .. }   (constants cannot be patterns once they are calls)
+    if EXTCONSTS:
+        cnames = {" ".join(t.text for t in tokenize(c[0]) if t.kind not in ("ws", "comment")) for c in EXTCONSTS}
+        k = lo
+        while k < hi:
+            t = toks[k]
+            if t.kind == "ident" and t.text == "matches":
+                n1 = next_sig(toks, k + 1, hi)
+                n2 = next_sig(toks, n1 + 1, hi) if n1 is not None else None
+                if n1 is not None and toks[n1].text == "!" and n2 is not None and toks[n2].text == "(":
+                    close = match_close(toks, n2)
+                    # split "E , alternatives" at the first depth-0 comma
+                    j = n2 + 1
+                    comma = None
+                    while j < close:
+                        tj = toks[j]
+                        if tj.kind == "punct" and tj.text in ("(", "[", "{"):
+                            j = match_close(toks, j)
+                        elif tj.kind == "punct" and tj.text == ",":
+                            comma = j
+                            break
+                        j += 1
+                    if comma is not None:
+                        alts_txt = src[toks[comma].end:toks[close].pos]
+                        alts = [" ".join(x.text for x in tokenize(a) if x.kind not in ("ws", "comment")) for a in alts_txt.split("|")]
+                        alts = [a for a in alts if a]
+                        if alts and all(a in cnames for a in alts):
+                            e_txt = src[toks[n2].end:toks[comma].pos].strip()
+                            cmap = {" ".join(t.text for t in tokenize(c[0]) if t.kind not in ("ws", "comment")):
+                                    "crate::vx_prelude::" + extconst_name(c[0]) + "()" for c in EXTCONSTS}
+                            new = "({ let __vxm = " + e_txt + "; " + " || ".join(f"__vxm == {cmap[a]}" for a in alts) + " })"
+                            ed.replace(toks[k].pos, toks[close].end, new)
+                            log["rewrites"].append({"rule": "R15", "fn": qual, "before": src[toks[k].pos:toks[close].end][:120],
+                                                    "after": "disjunction of == on the listed constants"})
+                            k = close
+            k += 1
     # R10 (automatic): associated constants of external types -> generated const fn with the value as contract
     for cpath, cty, cval, _real in EXTCONSTS:
         occ = find_subseq(toks, lo, hi, cpath)
@@ -804,10 +841,16 @@ def main():
             if u.extconsts:
                 ptxt += "pub mod vx_consts {\nuse vstd::prelude::*;\n"
                 for cpath, cty, cval, full in u.extconsts:
-                    ptxt += f"const _: () = assert!({full} == {cval}); // R10: value checked at compile time against the real constant\n"
+                    if cval != "-":
+                        ptxt += f"const _: () = assert!({full} == {cval}); // R10: value checked at compile time against the real constant\n"
                 ptxt += "verus! {\n"
                 for cpath, cty, cval, full in u.extconsts:
-                    ptxt += (f"#[verifier::external_body]\npub const fn {extconst_name(cpath)}() -> (r: {cty})\n    ensures r == {cval},\n{{ {full} }}\n")
+                    if cval == "-":
+                        # opaque constant: the spec only knows it is one fixed value
+                        ptxt += (f"pub uninterp spec fn {extconst_name(cpath)}_spec() -> {cty};\n"
+                                 f"#[verifier::external_body]\npub const fn {extconst_name(cpath)}() -> (r: {cty})\n    ensures r == {extconst_name(cpath)}_spec(),\n{{ {full} }}\n")
+                    else:
+                        ptxt += (f"#[verifier::external_body]\npub const fn {extconst_name(cpath)}() -> (r: {cty})\n    ensures r == {cval},\n{{ {full} }}\n")
                 ptxt += "} // verus!\n}\npub use vx_consts::*;\n"
             dst = os.path.join(os.path.dirname(rootp), "vx_prelude.rs")
             open(dst, "w").write(ptxt)
